@@ -18,3 +18,5 @@ def run(chk, args):
     for n in ([6, 7, 8] if q else [8, 9, 10]):
         mc_shapley(chk, f"weighted{n}", n, "basis", False, ["Efficiency", "NullPlayerZero"] + (["Symmetry"] if n <= 8 else []), timeout=3000)
     validate_shapley(chk, "shapley", "2,3,4,5,6,7,8" if q else "2,3,4,5,6,7,8,9,10", 25 if q else 200, 7 if q else 10)
+    if q:
+        validate_shapley(chk, "shapley", "9", 4, 7)     # a few games beyond 8 players in the quick tier too
